@@ -217,6 +217,16 @@ class RecType(object):
         return "CircularRecord" if self.circular else "SeqRecord"
 
 
+class AMapView(object):
+    """items()/keys()/values() of a symbolic dict"""
+
+    def __init__(self, m, which):
+        self.m, self.which = m, which
+
+    def __repr__(self):
+        return "%s(%r)" % (self.which, self.m)
+
+
 class ARange(object):
     def __init__(self, lo, hi, desc=False):
         self.lo, self.hi, self.desc = lo, hi, desc
@@ -384,6 +394,8 @@ class Interp(object):
                 return self.ge0(l - r) and self.ge0(r - l)
             if isinstance(op, ast.NotEq):
                 return not (self.ge0(l - r) and self.ge0(r - l))
+        if isinstance(op, (ast.Lt, ast.LtE, ast.Gt, ast.GtE)) and (isinstance(l, Term) or isinstance(r, Term)):
+            return self.path.choose("order %s %r %r" % (type(op).__name__, l, r))
         if isinstance(op, (ast.Is, ast.IsNot)):
             same = self.identical(l, r)
             return same if isinstance(op, ast.Is) else not same
@@ -573,6 +585,12 @@ class Interp(object):
         raise AnalysisError("cannot reduce %r modulo %r" % (a, n))
 
     def floordiv(self, a: Aff, n: Aff):
+        if n.is_const and n.c > 0 and not a.is_const:
+            # division by a constant: a fresh quotient symbol h with c*h <= a < c*h + c
+            h = Aff.sym("floordiv(%r,%d)" % (a, n.c))
+            self.path.cons.add(a - h.scale(n.c))
+            self.path.cons.add(h.scale(n.c) + (n.c - 1) - a)
+            return h
         for q in (0, 1, -1, 2, -2, 3):
             lo = a - n.scale(q)
             lb, ub = self.path.cons.bounds(lo)
@@ -857,6 +875,11 @@ class Frame(object):
                 obj.attrs[target.attr] = v
                 self.I.path.effects.append(("setattr", obj, target.attr, v))
                 return
+            if isinstance(obj, (Term, AStruct)):
+                self.I.path.effects.append(("setattr", obj, target.attr, v))
+                if isinstance(obj, AStruct):
+                    obj.fields[target.attr] = v
+                return
             if isinstance(obj, ClassInfo):
                 # class-level state: owned by the persistent-state rule (C06); no effect on this evaluation
                 self.I.path.effects.append(("class-store", obj.qualname, target.attr, v))
@@ -965,6 +988,21 @@ class Frame(object):
                 pass
             if st is I.step_loop:
                 raise StepDone(dict(self.env))
+            return
+        elif isinstance(it, AMapView):
+            key = I.new_term("key")
+            val = it.m.value_for(key)
+            it.m.adds.append((key, val))
+            elem = {"items": (key, val), "keys": key, "values": val}[it.which]
+            I.path.effects.append(("loop", "%s:%s" % (it.which, it.m.base), key))
+            self.assign(st.target, elem)
+            I.loop_depth += 1
+            try:
+                self.block(st.body)
+            except LoopContinue:
+                pass
+            finally:
+                I.loop_depth -= 1
             return
         elif isinstance(it, Term):
             elem = Term("elem-of", it)
@@ -1303,13 +1341,17 @@ class Frame(object):
             if isinstance(op, ast.Mod):
                 return I.mod(la, ra)
             if isinstance(op, ast.FloorDiv):
-                return I.floordiv(la, ra)
+                q = I.floordiv(la, ra)
+                return q
             self.unsupported(node, "integer operation")
         hook = I.hooks.get("binop")
         if hook is not None:
             res = hook(self, op, l, r, node)
             if res is not NotImplemented:
                 return res
+        if (isinstance(l, Term) and isinstance(r, (Term, Aff, int))) or (isinstance(r, Term) and isinstance(l, (Aff, int))):
+            if not isinstance(op, (ast.LShift, ast.RShift)):
+                return Term(type(op).__name__.lower(), _t(l), _t(r))
         if isinstance(op, ast.Add):
             return self.concat(l, r, node)
         if isinstance(op, ast.Mult):
@@ -1390,6 +1432,10 @@ class Frame(object):
                 return -v
             if isinstance(v, Aff):
                 return -v
+            if isinstance(v, Term):
+                return Term("neg", v)
+        if isinstance(e.op, ast.UAdd) and isinstance(v, (int, Aff, Term)):
+            return v
         self.unsupported(e, "unary operation")
 
     def e_BoolOp(self, e):
@@ -1411,13 +1457,17 @@ class Frame(object):
             return last
         else:
             last = False
+            pending = []
             for v in e.values:
                 x = self.expr(v)
                 if isinstance(x, ABoolTerm):
-                    self.unsupported(e, "symbolic boolean in 'or'")
+                    pending.append(x)
+                    continue
                 if I.truth(x, v):
-                    return x
+                    return x if not pending else ABoolTerm("or", *(pending + [x]))
                 last = x
+            if pending:
+                return pending[0] if len(pending) == 1 else ABoolTerm("or", *pending)
             return last
 
     def e_Compare(self, e):
@@ -1464,6 +1514,20 @@ class Frame(object):
             if not (isinstance(kk, Term) and kk == k):
                 self.unsupported(e, "dict comprehension changes the keys")
             return AMapGen(src.name, vv)
+        if isinstance(it, AMapView) and it.which == "items":
+            src = it.m
+            out = AMap(src.base, make_value=src.make_value)
+            out.values_cache = src.values_cache
+            gk = I.new_term("key")
+            sub = Frame(I, self.fi, dict(self.env), module=self.m)
+            sub.assign(g.target, (gk, src.value_for(gk)))
+            out.key_transform = sub.expr(e.key)
+            for k0, v0 in src.adds:
+                sub2 = Frame(I, self.fi, dict(self.env), module=self.m)
+                sub2.assign(g.target, (k0, v0))
+                out.adds.append((sub2.expr(e.key), sub2.expr(e.value)))
+            out.removes = list(src.removes)
+            return out
         if isinstance(it, dict):
             self.unsupported(e, "dict comprehension over a literal")
         self.unsupported(e, "dict comprehension over %r" % (it,))
@@ -1691,14 +1755,18 @@ def lib_getattr(fr: Frame, base, a: str, node):
             return AFeatList(base)
         if a == "__class__":
             return RecType(base.circular)
+        if a == "__dict__":
+            return base.attrs
         if a in ("letter_annotations", "dbxrefs"):
             if a in base.attrs:
                 return base.attrs[a]
             return Term(a, base.ident)
         if a in ("reverse_complement", "upper", "lower"):
             return BoundMethod("rec", base, a)
+        if a in base.attrs:
+            return base.attrs[a]
     if isinstance(base, ASeq):
-        if a in ("upper", "lower", "reverse_complement", "complement", "seq"):
+        if a in ("upper", "lower", "reverse_complement", "complement", "seq", "count", "find", "index", "rfind", "startswith", "endswith", "count_overlap"):
             if a == "seq":
                 fr.unsupported(node, ".seq of a bare sequence")
             return BoundMethod("seq", base, a)
@@ -1772,6 +1840,14 @@ def lib_call_method(fr: Frame, bm: BoundMethod, args, kwargs, node):
     if bm.kind == "seq":
         if name in ("upper", "lower"):
             return ASeq(t.kind, t.pieces, upper=(name == "upper"))
+        if name in ("count", "find", "index", "rfind", "startswith", "endswith", "count_overlap"):
+            I.path.effects.append(("text-search", name, bool(t.upper), args))
+            if name in ("startswith", "endswith"):
+                return ABoolTerm(name, t, *args)
+            sym = Aff.sym("%s(%s)" % (name, ",".join(map(repr, args))))
+            if name in ("count", "count_overlap"):
+                I.path.cons.add(sym)
+            return sym
         return Term(name, Term(repr(t)))
     if bm.kind == "rec":
         if name in ("upper", "lower"):
@@ -1933,7 +2009,7 @@ def map_method(fr: Frame, m, name, args, kwargs, node):
     if name == "keys":
         return m
     if name == "items":
-        return Term("items", Term(repr(m)))
+        return AMapView(m, "items")
     fr.unsupported(node, "dict method %s" % name)
 
 
@@ -2022,6 +2098,15 @@ def lib_call(fr: Frame, dotted: str, args, kwargs, node):
         return Term(short, _t(args[0]))
     if dotted == "builtins.enumerate":
         return Term("enumerate", _t(args[0]))
+    if dotted == "builtins.dict":
+        if not args and not kwargs:
+            return {}
+        if len(args) == 1 and isinstance(args[0], dict) and not kwargs:
+            return dict(args[0])  # a shallow copy: nested values stay shared
+        if len(args) == 1 and isinstance(args[0], Term):
+            return Term("shallow-copy", args[0])
+    if dotted == "builtins.list" and len(args) == 1 and isinstance(args[0], Term) and args[0].op not in ("values", "keys", "items", "map", "filter", "sorted", "enumerate"):
+        return Term("shallow-copy", args[0])
     if dotted == "builtins.list":
         if not args:
             return AList([], I.loop_depth)
@@ -2043,6 +2128,8 @@ def lib_call(fr: Frame, dotted: str, args, kwargs, node):
         which = short[4:]
         if isinstance(v, AMapGen) and which == "items":
             return Term("items", v)
+        if isinstance(v, AMap):
+            return AMapView(v, which)
         if isinstance(v, dict):
             return list(getattr(v, which)())
         if isinstance(v, Term):
@@ -2052,6 +2139,8 @@ def lib_call(fr: Frame, dotted: str, args, kwargs, node):
         I.path.effects.append(("warn", args[0]))
         return None
     if dotted == "Bio.Seq.Seq":
+        if args and isinstance(args[0], Term):
+            return Term("Seq", args[0])
         if args and isinstance(args[0], str):
             if args[0] == "":
                 return ASeq("Seq", [])
